@@ -1147,23 +1147,33 @@ func c12Newlines(w *World, r *Result) {
 				// the function returns: continue in the callers
 				tolerantAll, any := true, false
 				var wheres []string
-				for _, caller := range w.Funcs("parser") {
-					for _, cb := range caller.Blocks {
-						for ci, ins := range cb.Instrs {
-							cc, ok := ins.(*ssa.Call)
-							if !ok || cc.Call.StaticCallee() != fn {
-								continue
-							}
-							any = true
-							cs, wh, ok := nextTokenDecision(w, lf, caller, cb, ci+1, 1, map[*ssa.BasicBlock]bool{cb: true})
-							wheres = append(wheres, wh)
-							if !ok || !cs["NEWLINE"] {
-								tolerantAll = false
-								consts = cs
+				// the decision after the call, in every caller; a caller that returns right after the
+				// call (a wrapper) hands the question to its own callers
+				var inCallers func(callee *ssa.Function, depth int)
+				inCallers = func(callee *ssa.Function, depth int) {
+					for _, caller := range w.Funcs("parser") {
+						for _, cb := range caller.Blocks {
+							for ci, ins := range cb.Instrs {
+								cc, ok := ins.(*ssa.Call)
+								if !ok || cc.Call.StaticCallee() != callee {
+									continue
+								}
+								any = true
+								cs, wh, ok := nextTokenDecision(w, lf, caller, cb, ci+1, 1, map[*ssa.BasicBlock]bool{cb: true})
+								if !ok && wh == "" && depth < 3 && caller != callee {
+									inCallers(caller, depth+1)
+									continue
+								}
+								wheres = append(wheres, wh)
+								if !ok || !cs["NEWLINE"] {
+									tolerantAll = false
+									consts = cs
+								}
 							}
 						}
 					}
 				}
+				inCallers(fn, 0)
 				if any && tolerantAll {
 					r.Ok(rule, key, sitePos, "required newline; every caller continues with a token decision that accepts further NEWLINE tokens ("+strings.Join(uniq(wheres), ",")+")")
 				} else {
